@@ -415,6 +415,32 @@ Section Arithmetic.
     rewrite !nsum_Rsum. simpl mul. simpl div. now rewrite kept_sum.
   Qed.
 
+  (* expected variance: the second moment about the weighted mean, whether or not zero-weight points are skipped *)
+  Theorem expect_var_is_explicit_sum (f : list R -> R) (c : pmeasure R) :
+    Rsum (weights NumR c) <> 0 ->
+    let m := wsum NumR f (positions c) (weights NumR c) / Rsum (weights NumR c) in
+    expect_var NumR f c =
+    Some (wsum NumR (fun x => (f x - m) * (f x - m)) (positions c) (weights NumR c) / Rsum (weights NumR c)).
+  Proof.
+    intros Hne m. unfold expect_var, expected_variance. subst m. unfold wsum. change (T NumR) with R in *.
+    pose proof (weights_positions_aligned c) as Hlen.
+    set (l := combine (positions c) (weights NumR c)).
+    assert (Hsnd : map snd l = weights NumR c).
+    { subst l. clear -Hlen. revert Hlen. generalize (weights NumR c) (positions c).
+      intros ws xs; revert ws. induction xs as [|x xs IH]; intros [|w ws] H; simpl in *; auto; try discriminate.
+      f_equal. apply IH. lia. }
+    assert (Htot : nsum NumR (map snd (filter (fun p => nonzero NumR (snd p)) l)) = Rsum (weights NumR c)).
+    { rewrite nsum_Rsum, <- Hsnd.
+      pose proof (kept_sum (fun _ => 1) l) as K.
+      rewrite !(map_ext (fun p : list R * R => 1 * snd p) snd) in K by (intros; lra). exact K. }
+    change (T NumR) with R in *. fold l. rewrite Htot. simpl eqb. unfold Reqb. destruct (Req_EM_T _ _) as [E|_]; [contradiction|].
+    rewrite !nsum_Rsum. simpl mul. simpl div. simpl sub.
+    pose proof (kept_sum f l) as K1. unfold nonzero in K1. simpl in K1. change (T NumR) with R in *. rewrite K1.
+    set (mu := Rsum (map (fun p : list R * R => f (fst p) * snd p) l) / Rsum (weights NumR c)).
+    pose proof (kept_sum (fun x => (f x - mu) * (f x - mu)) l) as K2. unfold nonzero in K2. simpl in K2. change (T NumR) with R in *.
+    rewrite K2. reflexivity.
+  Qed.
+
   (* pof is the total weight of the failing points *)
   Theorem pof_is_indicator_sum (f : list R -> R) (c : pmeasure R) :
     pof NumR f c =
